@@ -117,6 +117,10 @@ func (x *Unit) run() {
 		x.ghostGet(st, name)
 	}
 	x.fact(Cmp(">=", x.ghostGet(st, "now").T, IntLit(0)))
+	// no lock of an object that does not exist yet is held
+	lh := x.ghostGet(st, "lockHeld")
+	x.fact(T{fmt.Sprintf("(forall ((a!lk Int)) (! (=> (> (proot a!lk) %s) (= (select %s a!lk) 0)) :pattern ((select %s a!lk))))",
+		alloc0.S, x.u.MapVal(lh.T).S, x.u.MapVal(lh.T).S), SBool})
 	for k, v := range st.ghost {
 		x.entry.ghost[k] = v
 	}
